@@ -87,6 +87,24 @@ def run(ctx):
             if v[0] == "corr" and "rejected" in str(v[1]):
                 stats["valid_rejected"] += 1
             rep.fail(v[0], {"stream": "designs", "case": c}, {"detail": v[1], "impl_top": im.get("top"), "reject": im.get("reject")})
+    # failing-input search: when the tie to the code is broken somewhere, look harder for a design whose nets differ
+    if (rep.corr_disagreements or rep.proof_broken) and not any(f["kind"] == "pred" for f in rep.failures):
+        import time, random
+        t0, extra, found = time.time(), 0, False
+        budget = 60 if ctx.quick else 600
+        seed = ctx.seed
+        while time.time() - t0 < budget and not found:
+            seed += 1000
+            more = designs.gen_cases(random.Random(seed), 300)
+            for c, im, mo in designs.run_designs(ctx, more):
+                extra += 1
+                for v in judge(c, im, mo):
+                    if v[0] == "pred":
+                        rep.fail("pred", {"stream": "designs", "case": c}, {"detail": v[1], "found_by": "failing-input search"})
+                        found = True
+                if found:
+                    break
+        rep.extra["failing_input_search"] = {"designs": extra, "found": found, "seconds": round(time.time() - t0, 1)}
     rep.extra["design_stats"] = stats
     rep.sample({"design": cases[2]["design"], "style": cases[2]["style"]})
 
